@@ -84,4 +84,10 @@ theorem byteSlice2Uint32_leBytes (w v : Nat) (hw : 1 ≤ w ∧ w ≤ 4) (hv : v 
   obtain rfl | rfl | rfl | rfl : w = 1 ∨ w = 2 ∨ w = 3 ∨ w = 4 := by omega
   all_goals (simp [byteSlice2Uint32, leBytes] at *; omega)
 
+theorem chunks_flatten (e : Enc) : e.chunks.flatten = e.marshal := by
+  unfold Enc.chunks Enc.marshal
+  by_cases h : e.values = []
+  · simp [h]
+  · simp [h, List.flatMap_def]
+
 end LinVerif.FixedOffset
